@@ -1252,3 +1252,51 @@ def run(ctx) -> None:  # noqa: F811
         ctx.require(n2 >= 1, "R-MARGINALL: no integrator table built from self.cutoff(symbol) found")
 
     deferred.run(ctx, new, _inner_run_c08g)
+
+
+# ---- added after the seeded change C08-r8seed1: the wrap tolerance does not leave atoms outside the crop tolerance
+_inner_run_c08h = run
+
+
+def run(ctx) -> None:  # noqa: F811
+    from ..rules import deferred
+
+    ctx.rule("R-WRAPEPS", "the periodic builder wraps the atoms into the cell (`atoms.wrap(eps=e)`: ASE maps scaled "
+             "coordinates into [-e, 1-e)) and then crops with atoms_in_cell, which keeps scaled coordinates >= -margin - t "
+             "(t read from the comparison in atoms_in_cell).  With margin 0 (infinite projection) every atom survives "
+             "only if e <= t: an atom left in (-e, -t) by the wrap is outside the crop and silently dropped, so a "
+             "translation that puts an atom a hair below a cell face loses it.  `wrap()` without eps uses ASE's default "
+             "1e-7")
+
+    def new():
+        repo = ctx.repo
+        f = repo.method(IAM, "_FieldBuilderFromAtoms", "_prepare_atoms")
+        crop = repo.function("abtem.atoms", "atoms_in_cell")
+        tols = []
+        for n in walk_no_nested(crop.node):
+            if isinstance(n, ast.BinOp) and isinstance(n.op, ast.Sub) and isinstance(n.right, ast.Constant) and isinstance(
+                    n.right.value, float) and 0 < n.right.value < 1e-6:
+                tols.append(n.right.value)
+        ctx.require(len(set(tols)) == 1, f"{crop.qualname}: the lower crop tolerance was not identified ({tols})")
+        t = tols[0]
+        wraps = [c for c in walk_no_nested(f.node) if isinstance(c, ast.Call) and isinstance(c.func, ast.Attribute)
+                 and c.func.attr == "wrap"]
+        ctx.require(len(wraps) >= 1, f"{f.qualname}: no wrap of the atoms into the cell found")
+        for c in wraps:
+            eps = next((k.value for k in c.keywords if k.arg == "eps"), None)
+            if eps is None and c.args:
+                raise AnalysisError(f"{f.qualname}: positional arguments of wrap() are not read")
+            if eps is None:
+                val, shown = 1e-7, "ASE's default 1e-7 (no eps given)"
+            elif isinstance(eps, ast.Constant) and isinstance(eps.value, (int, float)):
+                val, shown = float(eps.value), repr(eps.value)
+            else:
+                raise AnalysisError(f"{f.qualname}: wrap tolerance `{norm_text(eps)}` is not a constant")
+            ctx.check(0 <= val <= t, "R-WRAPEPS", f"{f.qualname}:wrap tolerance", f.loc(c),
+                      f"wrap tolerance {shown} <= crop tolerance {t}",
+                      f"`{norm_text(c)}` wraps with tolerance {shown}, larger than the tolerance {t} with which "
+                      f"{crop.name} keeps atoms below the cell face: atoms with scaled coordinate in (-{val}, -{t}) are "
+                      "left outside by the wrap and dropped by the crop (infinite projection: margin 0)",
+                      key_detail="eps")
+
+    deferred.run(ctx, new, _inner_run_c08h)
